@@ -24,10 +24,12 @@ class JobInformation:
     def state(self) -> Optional[JobState]:
         if (self.path / f"{self.scriptname}.done").is_file():
             return JobState.DONE
-        if (self.path / f"{self.scriptname}.failed").is_file():
-            return JobState.ERROR
+        # A relaunched job only removes the failure marker of its previous run
+        # once it has started: the process file takes precedence
         if (self.path / f"{self.scriptname}.pid").is_file():
             return JobState.RUNNING
+        if (self.path / f"{self.scriptname}.failed").is_file():
+            return JobState.ERROR
         else:
             return None
 
